@@ -384,8 +384,9 @@ func readEntries() []readEntry {
 
 type stage struct {
 	name string
-	// run opens a write transaction, reaches the stage, calls park() (which blocks until released) and then ends the transaction.
-	run func(r *fox.Router, rnd *hx.Rand, park func())
+	// run opens a write transaction, reaches the stage, calls park(txn) (which hands snapshots of the open write
+	// transaction to the readers, then blocks until released) and then ends the transaction.
+	run func(r *fox.Router, rnd *hx.Rand, park func(txn *fox.Txn))
 }
 
 func someWrites(txn *fox.Txn, rnd *hx.Rand) {
@@ -400,36 +401,36 @@ func someWrites(txn *fox.Txn, rnd *hx.Rand) {
 }
 
 var stages = []stage{
-	{"just-opened", func(r *fox.Router, rnd *hx.Rand, park func()) {
+	{"just-opened", func(r *fox.Router, rnd *hx.Rand, park func(txn *fox.Txn)) {
 		txn := r.Txn(true)
-		park()
+		park(txn)
 		if rnd.Bool() {
 			txn.Commit()
 		} else {
 			txn.Abort()
 		}
 	}},
-	{"after-uncommitted-writes", func(r *fox.Router, rnd *hx.Rand, park func()) {
+	{"after-uncommitted-writes", func(r *fox.Router, rnd *hx.Rand, park func(txn *fox.Txn)) {
 		txn := r.Txn(true)
 		defer txn.Abort()
 		someWrites(txn, rnd)
-		park()
+		park(txn)
 		if rnd.Bool() {
 			txn.Commit()
 		}
 	}},
-	{"inside-Updates", func(r *fox.Router, rnd *hx.Rand, park func()) {
+	{"inside-Updates", func(r *fox.Router, rnd *hx.Rand, park func(txn *fox.Txn)) {
 		fail := rnd.Bool()
 		_ = r.Updates(func(txn *fox.Txn) error {
 			someWrites(txn, rnd)
-			park()
+			park(txn)
 			if fail {
 				return errors.New("abort")
 			}
 			return nil
 		})
 	}},
-	{"after-Snapshot", func(r *fox.Router, rnd *hx.Rand, park func()) {
+	{"after-Snapshot", func(r *fox.Router, rnd *hx.Rand, park func(txn *fox.Txn)) {
 		txn := r.Txn(true)
 		defer txn.Abort()
 		someWrites(txn, rnd)
@@ -437,11 +438,11 @@ var stages = []stage{
 		_ = snap.Len()
 		_ = drain2(snap.Iter().All())
 		someWrites(txn, rnd)
-		park()
+		park(txn)
 		_ = snap.Has("GET", "/foo/bar")
 		txn.Commit()
 	}},
-	{"while-iterating-the-write-txn", func(r *fox.Router, rnd *hx.Rand, park func()) {
+	{"while-iterating-the-write-txn", func(r *fox.Router, rnd *hx.Rand, park func(txn *fox.Txn)) {
 		txn := r.Txn(true)
 		defer txn.Abort()
 		someWrites(txn, rnd)
@@ -449,11 +450,11 @@ var stages = []stage{
 		for range txn.Iter().All() {
 			if first {
 				first = false
-				park()
+				park(txn)
 			}
 		}
 		if first {
-			park()
+			park(txn)
 		}
 		txn.Commit()
 	}},
@@ -511,9 +512,22 @@ func runSetup(ops optSet, st stage, rst rstate, rnd *hx.Rand, rs *result, round 
 	release := make(chan struct{})
 	ended := make(chan struct{})
 	wr := rnd.Fork()
+	var snaps []*fox.Txn // snapshots of the OPEN write transaction, taken by the writer goroutine for the readers
 	go func() {
 		defer close(ended)
-		st.run(r, wr, func() { close(parked); <-release })
+		defer func() {
+			if p := recover(); p != nil {
+				rs.violate(violation{"writer-panicked", "Commit/Abort", st.name, rst.name, ops.name,
+					fmt.Sprintf("the write transaction panicked while finishing: %v", p)})
+			}
+		}()
+		st.run(r, wr, func(txn *fox.Txn) {
+			for i := 0; i < 3; i++ {
+				snaps = append(snaps, txn.Snapshot())
+			}
+			close(parked)
+			<-release
+		})
 	}()
 	select {
 	case <-parked:
@@ -521,6 +535,7 @@ func runSetup(ops optSet, st stage, rst rstate, rnd *hx.Rand, rs *result, round 
 		rs.violate(violation{"harness-error", "-", st.name, rst.name, ops.name, "the writer did not reach its parking point"})
 		return
 	}
+	baseLen := r.Len()
 
 	// second writer: must stay blocked while the first is parked
 	var acquired atomic.Bool
@@ -583,13 +598,64 @@ func runSetup(ops optSet, st stage, rst rstate, rnd *hx.Rand, rs *result, round 
 	}
 	wg.Wait()
 
+	// a reader uses snapshots of the WRITER's open transaction (read-only by contract) and finalises one of
+	// them the way the Txn documentation asks for; this must not touch the writer lock nor publish anything
+	fin := hx.Pick(rnd, []string{"Abort", "Commit", "Commit+Abort"})
+	var sobs string
+	_, sok, sp := within(timeout, func() {
+		for _, sn := range snaps {
+			if sn == nil {
+				sobs = "UNEXPECTED: Snapshot() of an open write transaction returned nil"
+				return
+			}
+		}
+		sobs = txnReads(snaps[0])
+		_ = snaps[1].Len()
+		_ = drain2(snaps[1].Iter().All())
+		wrong := sobs
+		switch fin { // exactly one snapshot is finalised per setup
+		case "Abort":
+			snaps[0].Abort()
+		case "Commit":
+			snaps[0].Commit()
+		default:
+			snaps[0].Commit()
+			snaps[0].Abort()
+		}
+		if strings.HasPrefix(wrong, "UNEXPECTED") {
+			return
+		}
+		if n := r.Len(); n != baseLen {
+			sobs = fmt.Sprintf("UNEXPECTED: finalising (%s) a snapshot of an open write transaction changed the live router: Len %d -> %d", fin, baseLen, n)
+		}
+	})
+	rs.mu.Lock()
+	rs.evals++
+	rs.mu.Unlock()
+	sname := "Snapshot-of-open-write-txn+reads+" + fin
+	switch {
+	case !sok:
+		rs.violate(violation{"read-did-not-complete", sname, st.name, rst.name, ops.name, "reading / finalising a snapshot of the open write transaction did not return within the timeout"})
+	case sp != nil:
+		rs.violate(violation{"read-panicked", sname, st.name, rst.name, ops.name, fmt.Sprint(sp)})
+	case strings.HasPrefix(sobs, "UNEXPECTED"):
+		rs.violate(violation{"read-wrong-result", sname, st.name, rst.name, ops.name, sobs})
+	default:
+		rs.mu.Lock()
+		rs.dist["read:"+sname]++
+		rs.distinct[fmt.Sprintf("opts=%s router=%s stage=%s read=%s", ops.name, rst.name, st.name, sname)] = true
+		rs.mu.Unlock()
+	}
+
 	// the writer is still parked, the second writer still waits
 	time.Sleep(20 * time.Millisecond)
 	rs.mu.Lock()
 	rs.evals++
 	rs.mu.Unlock()
 	if acquired.Load() {
-		rs.violate(violation{"second-writer-not-blocked", "Txn(true)", st.name, rst.name, ops.name, "a second write transaction was opened while the first one was still open"})
+		rs.violate(violation{"second-writer-not-blocked", "Txn(true) after " + sname, st.name, rst.name, ops.name,
+			"a second write transaction was opened while the first one was still open: the writer lock was released by something that is not the writer (readers ran every read entry point and finalised a snapshot of the open write transaction)"})
+		return // do not let the first writer unlock a mutex it no longer holds (fatal error in the Go runtime)
 	} else {
 		rs.mu.Lock()
 		rs.dist["second-writer-blocked-while-first-parked"]++
@@ -681,7 +747,7 @@ func hammer(ops optSet, st stage, rst rstate, rnd *hx.Rand, rs *result, dur time
 	}
 	parked, release, ended := make(chan struct{}), make(chan struct{}), make(chan struct{})
 	wr := rnd.Fork()
-	go func() { defer close(ended); st.run(r, wr, func() { close(parked); <-release }) }()
+	go func() { defer close(ended); st.run(r, wr, func(*fox.Txn) { close(parked); <-release }) }()
 	select {
 	case <-parked:
 	case <-time.After(timeout):
@@ -794,7 +860,7 @@ func main() {
 		Evaluations:        rs.evals,
 		DistinctNontrivial: len(rs.distinct),
 		Rule: "experiment = one call of a read entry point on the real router while a write transaction is parked (option set x router state [many routes / empty fresh / emptied by Delete / emptied by Truncate / single route / one method left] x writer stage x read entry point, routes and writer actions drawn from VERIF_SEED), " +
-			"plus per setup: second writer stays blocked / proceeds after the first ends / a writer proceeds with unfinished readers, plus a hammer of concurrent random reads; " +
+			"plus per setup: a reader reads 3 snapshots of the OPEN write transaction and finalises one (Abort / Commit / both), second writer stays blocked / proceeds after the first ends / a writer proceeds with unfinished readers, plus a hammer of concurrent random reads; " +
 			"distinct non-trivial = distinct (option set, router state, stage, read entry point) tuples whose read completed while the writer was verifiably still parked",
 		Distribution: rs.dist,
 		Samples:      rs.samples,
